@@ -261,9 +261,9 @@ func Stmt(s *N) string {
 		if s.S != "" {
 			head = "for " + strings.ReplaceAll(s.S, ",", ", ") + " := range "
 		}
-		return head + Expr(s.C[0]) + " " + Block(s.C[1], 0)
+		return head + sub(s.C[0], 14, false) + " " + Block(s.C[1], 0)
 	case "forin": // S = var; C = container, block
-		return "for " + s.S + " in " + Expr(s.C[0]) + " " + Block(s.C[1], 0)
+		return "for " + s.S + " in " + sub(s.C[0], 14, false) + " " + Block(s.C[1], 0)
 	case "break", "continue":
 		return s.K
 	case "return":
@@ -765,8 +765,10 @@ func (g *gen) stmt(d int) []*N {
 		return []*N{nVar(c, nInt(0)), n("forcond", nInfix("<", nId(c), nInt(bound)), b)}
 	case choice < 23 && deep && g.o.Containers: // range / in loops
 		var cont *N
+		iterated := ""
 		if ls := g.vars("list", false); len(ls) > 0 && g.r.Bool() {
-			cont = nId(Pick(g.r, ls).name)
+			iterated = Pick(g.r, ls).name
+			cont = nId(iterated)
 		} else if g.r.Bool() {
 			cont = g.listExpr(1)
 		} else {
@@ -776,6 +778,21 @@ func (g *gen) stmt(d int) []*N {
 		saved := g.sw
 		g.sw = 0
 		g.loop++
+		// the body must not grow the list it iterates over (live iteration would not end)
+		var restore []*bool
+		for si := range g.scopes {
+			for vi := range g.scopes[si] {
+				if v := &g.scopes[si][vi]; v.name == iterated && !v.cnst {
+					v.cnst = true
+					restore = append(restore, &v.cnst)
+				}
+			}
+		}
+		defer func() {
+			for _, b := range restore {
+				*b = false
+			}
+		}()
 		var st *N
 		switch g.r.Intn(4) {
 		case 0:
